@@ -310,3 +310,198 @@ Fixpoint get_style_pinned (fuel : nat) (h : hdr) (name : bytes) : res (option by
   | S f => (* ensureStyles: el.styles == nil, so parseStyles runs *)
            get_style_pinned f h name
   end.
+
+(* ---------- one element wrapper under a history of reads and writes
+
+   An HTMLElement keeps, next to the node, two lazily filled caches: the
+   attribute object (ensureAttrs) and the parsed inline style (ensureStyles).
+   Every write goes to the node and to the attribute cache; a write of the
+   "style" attribute drops the style cache.  [sp_*] is the cache-free meaning of
+   a history (every read sees the writes so far), [w_*] mirrors element.go with
+   its caches; Proofs/DomProofs.v shows they agree on every history.
+
+   The style attribute is kept as the declarations its text denotes (None: no
+   such attribute); the order of SerializeStyles is Go map order, the check
+   compares declarations sorted by name. *)
+Definition decls := list (bytes * bytes).
+
+Fixpoint assoc_del (k : bytes) (l : decls) : decls :=
+  match l with
+  | [] => []
+  | (k', v) :: r => if bytes_eqb k k' then assoc_del k r else (k', v) :: assoc_del k r
+  end.
+Definition set_many (kvs l : decls) : decls := fold_left (fun acc kv => assoc_set (fst kv) (snd kv) acc) kvs l.
+Definition del_many (ks : list bytes) (l : decls) : decls := fold_left (fun acc k => assoc_del k acc) ks l.
+
+(* common.DeserializeStyles on the subset  name ':' value ';' ... : names and
+   values trimmed of spaces, a later declaration of a name replaces the earlier
+   one, pieces without ':' or without a name are dropped *)
+Fixpoint split_on (c : N) (cur s : bytes) : list bytes :=
+  match s with
+  | [] => [rev cur]
+  | b :: r => if (b =? c)%N then rev cur :: split_on c [] r else split_on c (b :: cur) r
+  end.
+Fixpoint ltrim (s : bytes) : bytes :=
+  match s with
+  | b :: r => if (b =? 32)%N then ltrim r else s
+  | [] => []
+  end.
+Definition trim (s : bytes) : bytes := rev (ltrim (rev (ltrim s))).
+Fixpoint cut_colon (cur s : bytes) : option (bytes * bytes) :=
+  match s with
+  | [] => None
+  | b :: r => if (b =? 58)%N then Some (rev cur, r) else cut_colon (b :: cur) r
+  end.
+Definition parse_style (raw : bytes) : decls :=
+  fold_left (fun acc piece =>
+               match cut_colon [] piece with
+               | Some (k, v) => match trim k with [] => acc | k' => assoc_set k' (trim v) acc end
+               | None => acc
+               end) (split_on 59 [] raw) [].
+
+(* the attributes of the node *)
+Record est := mkS { s_attrs : decls; s_style : option decls }.
+Definition est_of (h : hdr) : est :=
+  mkS (h_attrs h) (match h_style h with [] => None | l => Some l end).
+Definition sp_styles (s : est) : decls := match s_style s with Some d => d | None => [] end.
+
+(* an attribute value as read: text, or for "style" its declarations *)
+Inductive aval := AV (v : bytes) | AS (d : decls).
+Definition est_get (s : est) (n : bytes) : option aval :=
+  if bytes_eqb n style_name then option_map AS (s_style s) else option_map AV (assoc n (s_attrs s)).
+Definition est_all (s : est) : list (bytes * aval) :=
+  map (fun kv => (fst kv, AV (snd kv))) (s_attrs s) ++
+  match s_style s with Some d => [(style_name, AS d)] | None => [] end.
+
+(* reads *)
+Inductive rop :=
+| RStyle (names : list bytes)     (* STYLE_GET(e, names..), e.style[name]: GetStyle *)
+| RStyles                         (* e.style: GetStyles *)
+| RAttrGet (names : list bytes)   (* ATTR_GET(e, names..): GetAttributes, then the names *)
+| RAttrs                          (* e.attributes: GetAttributes *)
+| RAttrMember (n : bytes).        (* e.attributes[n]: GetAttribute, which answers "style" with GetStyles *)
+Inductive rd :=
+| RdOpt (l : list (option bytes))
+| RdDecls (d : decls)
+| RdA (l : list (option aval))
+| RdAll (l : list (bytes * aval)).
+
+(* one attribute assignment: name and text (the text of "style" is parsed), or
+   the style attribute given as declarations (ATTR_SET(e, "style", {..})) *)
+Inductive aset := SetA (k v : bytes) | SetS (d : decls).
+Definition is_style (a : aset) : bool :=
+  match a with SetA k _ => bytes_eqb k style_name | SetS _ => true end.
+
+Inductive hop :=
+| Rd (r : rop)                    (* through the wrapper under test *)
+| RdFresh (r : rop)               (* through a new wrapper of the same node: ELEMENT(d, s) again *)
+| WAttr (a : aset)                (* ATTR_SET(e, name, value) *)
+| WAttrs (l : list aset)          (* ATTR_SET(e, {name: value, ..}) *)
+| WStyle (k v : bytes)            (* STYLE_SET(e, name, value) *)
+| WStyles (kvs : decls)           (* STYLE_SET(e, {name: value, ..}) *)
+| RmAttr (names : list bytes)     (* ATTR_REMOVE(e, names..) *)
+| RmStyle (names : list bytes).   (* STYLE_REMOVE(e, names..) *)
+
+(* --- cache-free meaning *)
+Definition sp_read (r : rop) (s : est) : rd :=
+  match r with
+  | RStyle names => RdOpt (map (fun n => assoc n (sp_styles s)) names)
+  | RStyles => RdDecls (sp_styles s)
+  | RAttrGet names => RdA (map (est_get s) names)
+  | RAttrs => RdAll (est_all s)
+  | RAttrMember n => if bytes_eqb n style_name then RdDecls (sp_styles s) else RdA [est_get s n]
+  end.
+
+Definition sp_set (a : aset) (s : est) : est :=
+  match a with
+  | SetS d => mkS (s_attrs s) (Some d)
+  | SetA k v => if bytes_eqb k style_name then mkS (s_attrs s) (Some (parse_style v))
+                else mkS (assoc_set k v (s_attrs s)) (s_style s)
+  end.
+Definition sp_rm (k : bytes) (s : est) : est :=
+  if bytes_eqb k style_name then mkS (s_attrs s) None else mkS (assoc_del k (s_attrs s)) (s_style s).
+
+Definition sp_write (o : hop) (s : est) : est :=
+  match o with
+  | WAttr a => sp_set a s
+  | WAttrs l => fold_left (fun s a => sp_set a s) l s
+  | WStyle k v => sp_set (SetS (assoc_set k v (sp_styles s))) s
+  | WStyles kvs => sp_set (SetS (set_many kvs (sp_styles s))) s
+  | RmAttr names => fold_left (fun s n => sp_rm n s) names s
+  | RmStyle [] => s
+  | RmStyle names => sp_set (SetS (del_many names (sp_styles s))) s
+  | Rd _ | RdFresh _ => s
+  end.
+
+Definition sp_state (ops : list hop) (s : est) : est := fold_left (fun s o => sp_write o s) ops s.
+
+Fixpoint sp_run (ops : list hop) (s : est) : list rd :=
+  match ops with
+  | [] => []
+  | Rd r :: rest => sp_read r s :: sp_run rest s
+  | RdFresh r :: rest => sp_read r s :: sp_run rest s
+  | o :: rest => sp_run rest (sp_write o s)
+  end.
+
+(* --- element.go: node, attribute cache, style cache *)
+Record wrap := mkW { w_node : est; w_attrs : option est; w_styles : option decls }.
+Definition fresh (n : est) : wrap := mkW n None None.
+
+Definition ensure_attrs (w : wrap) : wrap :=
+  match w_attrs w with Some _ => w | None => mkW (w_node w) (Some (w_node w)) (w_styles w) end.
+(* parseStyles reads the node's style attribute *)
+Definition ensure_styles (w : wrap) : wrap :=
+  match w_styles w with Some _ => w | None => mkW (w_node w) (w_attrs w) (Some (sp_styles (w_node w))) end.
+Definition the_attrs (w : wrap) : est := match w_attrs w with Some a => a | None => mkS [] None end.
+Definition the_styles (w : wrap) : decls := match w_styles w with Some d => d | None => [] end.
+
+(* SetAttribute: ensureAttrs; name == "style" drops the parsed styles; cache and node are written *)
+Definition w_set_attribute (a : aset) (w : wrap) : wrap :=
+  let w1 := ensure_attrs w in
+  mkW (sp_set a (w_node w1)) (Some (sp_set a (the_attrs w1))) (if is_style a then None else w_styles w1).
+
+(* RemoveAttribute; [inval] = the parsed styles are dropped when "style" is removed
+   (false mirrors the tree before the repair proposed with this check) *)
+Definition w_remove_attribute (inval : bool) (names : list bytes) (w : wrap) : wrap :=
+  fold_left (fun w n => mkW (sp_rm n (w_node w)) (Some (sp_rm n (the_attrs w)))
+                            (if inval && bytes_eqb n style_name then None else w_styles w))
+            names (ensure_attrs w).
+
+(* SetStyle / SetStyles / RemoveStyle: ensureStyles, change the parsed styles,
+   SetAttribute("style", SerializeStyles(styles)) *)
+Definition w_write_styles (f : decls -> decls) (w : wrap) : wrap :=
+  let w1 := ensure_styles w in
+  let st := f (the_styles w1) in
+  w_set_attribute (SetS st) (mkW (w_node w1) (w_attrs w1) (Some st)).
+
+Definition w_read (r : rop) (w : wrap) : wrap * rd :=
+  match r with
+  | RStyle names => let w1 := ensure_styles w in (w1, RdOpt (map (fun n => assoc n (the_styles w1)) names))
+  | RStyles => let w1 := ensure_styles w in (w1, RdDecls (the_styles w1))
+  | RAttrGet names => let w1 := ensure_attrs w in (w1, RdA (map (est_get (the_attrs w1)) names))
+  | RAttrs => let w1 := ensure_attrs w in (w1, RdAll (est_all (the_attrs w1)))
+  | RAttrMember n =>
+      let w1 := ensure_attrs w in
+      if bytes_eqb n style_name then let w2 := ensure_styles w1 in (w2, RdDecls (the_styles w2))
+      else (w1, RdA [est_get (the_attrs w1) n])
+  end.
+
+Definition w_write (inval : bool) (o : hop) (w : wrap) : wrap :=
+  match o with
+  | WAttr a => w_set_attribute a w
+  | WAttrs l => fold_left (fun w a => w_set_attribute a w) l (ensure_attrs w)
+  | WStyle k v => w_write_styles (assoc_set k v) w
+  | WStyles kvs => w_write_styles (set_many kvs) w
+  | RmAttr names => w_remove_attribute inval names w
+  | RmStyle [] => w
+  | RmStyle names => w_write_styles (del_many names) w
+  | Rd _ | RdFresh _ => w
+  end.
+
+Fixpoint w_run (inval : bool) (ops : list hop) (w : wrap) : list rd :=
+  match ops with
+  | [] => []
+  | Rd r :: rest => snd (w_read r w) :: w_run inval rest (fst (w_read r w))
+  | RdFresh r :: rest => snd (w_read r (fresh (w_node w))) :: w_run inval rest w
+  | o :: rest => w_run inval rest (w_write inval o w)
+  end.
